@@ -400,11 +400,11 @@ pub fn profile_for(prop: &str) -> PProfile {
 fn profile_for_quick(prop: &str) -> PProfile {
     let d = PProfile::default();
     match prop {
-        "C01" => PProfile { over_capacity_pct: 85, chaos_umc_pct: 50, chaos_clear_pct: 10, if_present_pct: 12, collide_pct: 5, ..d },
+        "C01" => PProfile { over_capacity_pct: 85, chaos_umc_pct: 50, chaos_clear_pct: 10, if_present_pct: 12, collide_pct: 5, vstall_pct: 15, ..d },
         "C02" => PProfile { keys: (1, 5), get_mut_write: true, chaos_clear_pct: 25, collide_pct: 30, lookup_pct: 35, validator_pct: 15, wait_pct: 12, ..d },
-        "C06" => PProfile { chaos_clear_pct: 30, over_capacity_pct: 60, ttl_pct: 35, small_buffer_pct: 25, ..d },
+        "C06" => PProfile { chaos_clear_pct: 30, over_capacity_pct: 60, ttl_pct: 35, small_buffer_pct: 25, vstall_pct: 20, ..d },
         "C07" => PProfile { clients: (1, 3), keys: (4, 16), over_capacity_pct: 100, lookup_pct: 50, ttl_pct: 5, remove_pct: 5, chaos_umc_pct: 20, ops: (10, 40), collide_pct: 0, exit_only_cb_pct: 10, ..d },
-        "C08" => PProfile { chaos_clear_pct: 15, chaos_close_pct: 20, over_capacity_pct: 60, exit_only_cb_pct: 20, ttl_pct: 30, ..d },
+        "C08" => PProfile { chaos_clear_pct: 15, chaos_close_pct: 20, over_capacity_pct: 60, exit_only_cb_pct: 20, ttl_pct: 30, vstall_pct: 20, ..d },
         "C10" => PProfile { wait_pct: 25, chaos_clear_pct: 35, chaos_close_pct: 35, small_buffer_pct: 50, lookup_pct: 10, ops: (3, 12), ..d },
         "C11" => PProfile { chaos_clear_pct: 70, inline_clear_pct: 10, metrics_on: true, ops: (3, 14), ..d },
         "C12" => PProfile { chaos_close_pct: 70, chaos_clear_pct: 40, finale_close_pct: 50, finale_drop_pct: 40, wait_pct: 8, ops: (2, 10), small_buffer_pct: 30, ..d },
@@ -531,6 +531,10 @@ pub fn gen_p_family(prop: &str, seed: u64, pf: &PProfile) -> Plan {
                     acc += p;
                     r < acc
                 };
+                if pf.vstall_pct > 0 && sim.stalls.iter().any(|s| s.for_ns > 0) && rng.chance(4, 100) {
+                    // this client will be stalled somewhere inside its next operation
+                    script.push(Op::StallSelf { ns: rng.range(100, 3000) * MS, skip: rng.below(10) as u32 });
+                }
                 if pickp(pf.lookup_pct) {
                     script.push(match if rng.below(10) < pf.get_ttl_tenths { 7 } else { rng.below(10) } {
                         0..=6 => Op::Get { k, hold: if rng.chance(1, 6) { rng.range(1, 5) as u32 } else { 0 } },
@@ -1039,8 +1043,8 @@ fn gen_plan_inner(prop: &str, seed: u64, variant: u64) -> Plan {
     match prop {
         "C03" | "C10" | "C20" if variant % 40 == 11 => gen_huge_ttl(prop, seed),
         "C04" | "C05" | "C06" | "C01" | "C17" | "C07" | "C08" if variant % 193 == 7 => gen_bulk(prop, seed),
-        "C03" if variant % 4 == 2 => gen_p_family(prop, seed, &PProfile { ttl_pct: 70, lookup_pct: 45, over_capacity_pct: 30, remove_pct: 8, ..PProfile::default() }),
-        "C04" if variant % 4 == 2 => gen_p_family(prop, seed, &PProfile { over_capacity_pct: 0, collide_pct: 0, ttl_pct: 30, remove_pct: 10, if_present_pct: 5, wait_pct: 5, ..PProfile::default() }),
+        "C03" if variant % 4 == 2 => gen_p_family(prop, seed, &PProfile { ttl_pct: 70, lookup_pct: 45, over_capacity_pct: 30, remove_pct: 8, vstall_pct: 25, ..PProfile::default() }),
+        "C04" if variant % 4 == 2 => gen_p_family(prop, seed, &PProfile { over_capacity_pct: 0, collide_pct: 0, ttl_pct: 30, remove_pct: 10, if_present_pct: 5, wait_pct: 5, vstall_pct: 25, ..PProfile::default() }),
         "C03" | "C04" => gen_ttl_family(prop, seed, variant % 4 == 3),
         "C05" if variant % 48 == 6 => gen_load(prop, seed),
         "C05" if variant % 16 == 10 => gen_late(prop, seed),
